@@ -59,6 +59,11 @@ def transp_case(draw):
     lay = draw(layout.layout(spec, compressed=False, sub_prob=(2, 3),
                              lies=True, second_prob=(1, 3)))
     nsub = len(lay['manifests']) - 1
+    # line ends are a property of the text, not of the storage format
+    for m in lay['manifests']:
+        if draw(st.integers(0, 7)) == 0:
+            m['eol'] = draw(st.sampled_from(['\r\n', '\r']))
+            lay['tags'].append('eol:' + repr(m['eol']))
     nvar = draw(st.integers(2, 5))
     variants = [[''] * nsub]
     for _ in range(nvar - 1):
